@@ -22,7 +22,8 @@ CONSTANTS
   MaxCrash,     \* bound on crashes
   MaxFaults,    \* bound on injected I/O faults
   Concurrent,   \* TRUE: worker steps interleave; FALSE: the worker runs to idle after every call
-  WithRejects   \* TRUE: arguments the reference rejects are offered too
+  WithRejects,  \* TRUE: arguments the reference rejects are offered too
+  ExportOneIn   \* behaviour export prints one terminal behaviour in this many (1 = all)
 
 
 VARIABLES
@@ -123,7 +124,8 @@ ACrash ==
                      ELSE [s |-> o.s, evs |-> <<cev>> \o o.evs, steps |-> <<>>]
                 step == [a |-> "crash", kind |-> "power",
                          img |-> [j \in 1..Len(L) |-> <<L[j].ck, img[j].n, img[j].tail>>]]
-            IN Take(y, <<step, [a |-> "open", cfg |-> cfg]>> \o y.steps, [g EXCEPT !.crashes = @ + 1])
+            IN \* x: what the specification expects of this open (lets the replay sample both outcomes)
+               Take(y, <<step, [a |-> "open", cfg |-> cfg, x |-> o.res]>> \o y.steps, [g EXCEPT !.crashes = @ + 1])
 
 Next == AVote \/ AAppend \/ ATruncate \/ APurge \/ ACommit \/ AUser \/ AFlush
         \/ AWorker \/ AWorkerFault \/ AReopen \/ ACrash
@@ -148,7 +150,7 @@ Terminal ==
   \/ s.w.pc = "exit"
   \/ /\ g.calls = MaxCalls /\ g.flushes = MaxFlush /\ g.reopens = MaxReopen /\ g.crashes = MaxCrash
      /\ (~Concurrent \/ ~WEnabled(s))
-Export == Terminal => PrintT(<<"BEH", ToJson(g.log)>>)
+Export == (Terminal /\ (ExportOneIn = 1 \/ RandomElement(1..ExportOneIn) = 1)) => PrintT(<<"BEH", ToJson(g.log)>>)
 
 \* state constraint used by the simulation configs to bound the depth of behaviours
 Bound == g.len < 60
